@@ -377,7 +377,17 @@ def run(ctx, broken):
     for i in range(6 if ctx.tier == "quick" else 40):
         p = Prog(); body(rng, p)
         cc.append({"src": p.src() + " || " + p.src() + ";" + NOOP, "cmd": "prog2", "expect": "sizeerr", "rv": None,
-                   "tags": ["size-mismatch"]})
+                   "tags": ["size-mismatch", "one-gate-more"]})
+        # one gate fewer (the compiled description has a trailing unconstrained row), k gates more (crossing the next power of two)
+        cc.append({"src": p.src() + ";" + NOOP + " || " + p.src(), "cmd": "prog2", "expect": "sizeerr", "rv": None,
+                   "tags": ["size-mismatch", "one-gate-fewer"]})
+        cc.append({"src": p.src() + " || " + p.src() + (";" + NOOP) * (3 + 5 * i), "cmd": "prog2", "expect": "sizeerr", "rv": None,
+                   "tags": ["size-mismatch", "several-gates-more"]})
+        # the extra / missing row carries a public input (zero-valued): one more / one fewer public-input row
+        cc.append({"src": p.src() + " || " + p.src() + ";pub 0", "cmd": "prog2", "expect": "sizeerr", "rv": None,
+                   "tags": ["size-mismatch", "one-public-input-more"]})
+        cc.append({"src": p.src() + ";pub 0 || " + p.src(), "cmd": "prog2", "expect": "sizeerr", "rv": None,
+                   "tags": ["size-mismatch", "one-public-input-fewer"]})
     # LONG copy classes: one witness wired into m slots (all four columns of unconstrained rows, registration order
     # a0 b0 c0 d0 a1 ...). Keys compiled from A (all slots = x); instance B feeds a subset of the slots from a second
     # witness y != x: the first k slots keep x (every split position k, incl. 16, 32, 48, 64), alternating slots, a random
